@@ -58,6 +58,13 @@ fn alphabet() -> Vec<StepDef> {
                                              asserted_at: "2026-02-03T00:00:00Z", valid_time: {from: "2026-01-01T00:00:00Z", until: "2040-01-01T00:00:00Z"}}
                                    SET STRUCTURAL { ("evidence", ?e) {role: "support"} } }
           }"#),
+        // refused at commit (the key "a" is held): never extended, but every
+        // recording is replayed after it — a refused statement, PURGE clause
+        // included, removes nothing from the past
+        k("purge-n-refused-at-commit", r#"MUTATE {
+            PURGE "C-4" CONFIRM "PURGE"
+            CREATE CONCEPT ?dup { TYPE "Person" NAME "Impostor" SET FIELDS {key: "a"} }
+          }"#),
         StepDef { name: "toggle-schema", op: Op::ToggleSchema },
         k("widget", r#"MUTATE {
             CREATE CONCEPT ?w { TYPE "Widget" NAME "W1" SET FIELDS {key: "w"} }
